@@ -2,7 +2,8 @@
 """Regenerates /verif/MANIFEST.json from props/*.json (plans) — keeps the manifest valid at all times."""
 import json, os, subprocess
 V = os.path.dirname(os.path.dirname(os.path.abspath(__file__)))
-ids = sorted(f[:-5] for f in os.listdir(os.path.join(V, "props")) if f.endswith(".json"))
+import re
+ids = sorted(f[:-5] for f in os.listdir(os.path.join(V, "props")) if re.match(r"C\d+\.json$", f))
 all_ids = [json.loads(l)["id"] for l in open(os.path.join(V, "properties.jsonl"))]
 checks = []
 for pid in ids:
